@@ -12,6 +12,10 @@ CHECKS = {
    text="Every cmap subtable from structural menus (formats 0/2/4/6/10/12; 1-2 segments or groups quick, 3 thorough; delta vs glyphIdArray segments, boundary codes and deltas) is encoded by an independent encoder, read by allsorts at three seams (CmapSubtable, owned CmapSubtable, Font::lookup_glyph_index on a wrapped font) and compared with the specification's model map on every structural edge (thorough: all 0x110000 code points for one-segment tables); all ordered selections of <=3 encoding records decide the preference order; Mac Roman / Big5 inverse laws over all bytes, codes and chars.",
    note="Trusted: otmodel::cmapenc encoders + model maps written from the OpenType cmap chapter; Apple ROMAN.TXT from memory, compared only where allsorts' partial decoder is defined; tables are well formed (malformed ones belong to C01).",
    technique="exhaustive choice-tree enumeration of cmap structures x code points against a dictionary reference model"),
+ "C10": dict(engine="mcx-choice-tree", cat="model_checking",
+   text="Every container configuration within the bounds (all tag subsets of <=3 (thorough 4) tables from 6 tags x every length from the menu, 3 flavours, directory/data order deviations, all TTC sharing patterns of a 4-table pool over <=2 (3) members with header versions 1/2, all 2^k WOFF compression assignments with metadata/private blocks) is built by independent builders and queried through OpenTypeFont/WoffFont/FontData for every present tag, absent tags and member indices beyond the end; the configuration itself is the oracle.",
+   note="Trusted: otmodel::sfnt builders and flate2 (zlib backend) as the compressor; table_tags compared as a set; second flate2 backend not exercised.",
+   technique="exhaustive choice-tree enumeration of container configurations; byte-equality oracle"),
 }
 
 NOT_YET = {
